@@ -1,7 +1,7 @@
 // C09 correspondence driver: the real PayloadWriter (through metrics_exporter_dogstatsd::verif_driver).
 //
 // stdin, one case per line (all strings hex-encoded UTF-8; `-` = absent / empty list):
-//   <max> <lp 0|1> <prefix|-> <glabels|-> | <op> <op> ...
+//   <max> <lp 0|1> <+prefix|-> <glabels|-> | <op> <op> ...
 //   labels: k=v;k=v        (hex=hex)
 //   ops: c:<name>:<labels>:<u64>:<ts|->            write_counter
 //        g:<name>:<labels>:<f64 bits hex>:<ts|->   write_gauge
@@ -72,7 +72,7 @@ fn run_case(line: &str) -> String {
     let lp = hs.next().unwrap() == "1";
     let prefix = match hs.next().unwrap() {
         "-" => None,
-        p => Some(unhex_str(p)),
+        p => Some(unhex_str(&p[1..])),
     };
     let glabels = labels_of(hs.next().unwrap());
     let mut w = match catch_unwind(|| Writer::new(max, lp, prefix, glabels)) {
